@@ -703,9 +703,33 @@ def rule_u10(F):
                 if not post or not pre:
                     continue
                 found += 1
+                # (a) the count is read inside the round, before the retain
                 in_round = all(x in nodes and x in dom[sb] for x in pre)
-                r.inst("no-progress test line %s" % st.get("line"), {"line": st.get("line"), "count_before_taken_inside_the_round": in_round})
-                if not in_round:
+                # (b) ... or it is carried from round to round: initialised from a len() before the loop and re-assigned inside the
+                # loop, after the comparison, from the count read after this round's retain
+                carried = False
+                pre_op = a if (mir.back_calls(b, defs, a[1][0]) & lens) <= set(pre) and (mir.back_calls(b, defs, a[1][0]) & lens) else c
+                var = pre_op[1][0]
+                for _ in range(6):
+                    ds_ = defs.whole_defs(var)
+                    if len(ds_) == 1 and ds_[0][2] == "assign" and ds_[0][3]["rv"]["k"] == "use" and mir.is_place_op(ds_[0][3]["rv"]["o"]) and len(ds_[0][3]["rv"]["o"][1]) == 1:
+                        var = ds_[0][3]["rv"]["o"][1][0]
+                    else:
+                        break
+                vdefs = defs.whole_defs(var)
+                inside = [d for d in vdefs if d[0] in nodes]
+                outside = [d for d in vdefs if d[0] not in nodes]
+                if inside and outside:
+                    def from_lens(d):
+                        if d[2] == "call":
+                            return {d[0]} & lens
+                        return set().union(*[mir.back_calls(b, defs, x) for x in mir.rv_locals(d[3]["rv"])]) & lens if mir.rv_locals(d[3]["rv"]) else set()
+                    ok_in = all(from_lens(d) and all(x in post or (x in nodes and sb in dom[x]) for x in from_lens(d))
+                                and bi not in mir.reachable_from(b, d[0], stop={h}) - {d[0]} for d in inside)
+                    ok_out = all(from_lens(d) for d in outside)
+                    carried = ok_in and ok_out
+                r.inst("no-progress test line %s" % st.get("line"), {"line": st.get("line"), "count_before_taken_inside_the_round": in_round, "count_carried_from_the_previous_round": carried})
+                if not in_round and not carried:
                     r.bad(b.path, "no-progress test against a count from outside the round", relfile(b.file), st.get("line"),
                           "the number of unresolved imports after a round is compared with a count that is not taken at the start of the same round: after one successful round a later round "
                           "without progress is no longer detected and the loop never ends (compilation hangs instead of reporting the unresolvable import)")
